@@ -101,9 +101,24 @@ def c09_pfs_contract_text():
             "file": "contracts/inc/qwt_core.vrs", "failures": [] if ok else [{"msg": "assumed and proved contract texts differ for: %s" % bad, "source": ""}]}
 
 
+def c18_send_sync():
+    """rustc obligation: every public structure is Send + Sync (a small program that only has to type-check)"""
+    import replay_search
+    ok, conclusive, err = replay_search.check_send_sync()
+    o = {"id": "rustc:c18_send_sync", "engine": "rustc (auto-trait obligations)", "kind": "proved", "ok": ok,
+         "function": "Send + Sync for the public structures (replay/src/bin/sendsync.rs)", "file": "src/", "props": ["C18"], "failures": []}
+    if not ok:
+        if conclusive:
+            m = re.findall(r"`([^`]+)` cannot be (?:sent|shared) between threads safely", err)
+            o["failures"] = [{"msg": "a public structure is no longer Send + Sync: %s" % sorted(set(m))[:4], "source": "", "text": err}]
+        else:
+            o["inconclusive"] = "the Send + Sync program does not compile against this tree for another reason: %s" % err[-400:]
+    return o
+
+
 def for_property(prop):
     if prop == "C09":
         return [c09_cfg_sites(), c09_pfs_contract_text()]
     if prop == "C18":
-        return [c18_no_interior_mutability(), c18_queries_take_shared_ref()]
+        return [c18_no_interior_mutability(), c18_queries_take_shared_ref(), c18_send_sync()]
     return []
